@@ -264,7 +264,7 @@ func rulePoolSetsImmutable(c *Ctx, rule string) {
 func rulePodLockKey(c *Ctx, rule string) {
 	n := 0
 	for _, fn := range c.SrcFns {
-		for _, call := range calls(fn, "(*FloatingIPPlugin).lockPod") {
+		for _, call := range callsLocal(fn, "(*FloatingIPPlugin).lockPod") {
 			n++
 			a := callArgs(call)
 			okN := pathEndsWith(a[0], "Name") || pathEndsWith(a[0], "PodName")
@@ -348,7 +348,7 @@ func ruleWhoMayUnbind(c *Ctx, rule string) {
 		if fn.Pkg.Pkg.Path() != modPath+spPkg {
 			continue
 		}
-		for _, call := range calls(fn, "(*FloatingIPPlugin).unbindDpPod", "(*FloatingIPPlugin).unbindNoneDpPod", "IPAM).Release") {
+		for _, call := range callsLocal(fn, "(*FloatingIPPlugin).unbindDpPod", "(*FloatingIPPlugin).unbindNoneDpPod", "IPAM).Release") {
 			n++
 			root := fn
 			for root.Parent() != nil {
